@@ -7,7 +7,8 @@ From Coq Require Import Sorted.
 From Coq.Strings Require Import Byte.
 From EsVerif.Common Require Import Base Bytes.
 From EsVerif.C02 Require Import Arange Gen Model Spec SpecProofs SliceProofs RowsProofs CursorProofs MainProofs TextProofs
-  TextAligned RequestProofs RequestInst.
+  TextAligned RequestProofs RequestInst ScopeProofs RejectProofs HistoryProofs.
+From EsVerif.C02 Require Exec.
 From EsVerif.C04 Require TextModel Spec.
 
 (* the boolean checker run on the implementation's output decides the property as stated in Spec.v *)
@@ -258,3 +259,118 @@ Example ex_read : recfile_read (fun _ x => x) ex_file (RList [2; 0; 2]) CNone (C
 Proof. reflexivity. Qed.
 Example ex_file_ok : file_ok (fun _ x => x) ex_file ex_table.
 Proof. left. exists []. split; [exact ex_wf|discriminate]. Qed.
+
+(* ================================================================== proof-deepening round *)
+
+(* ------------------------------------------------------------------ the scope monitor is sound
+   wf_bin_b / wf_text_b are the hypotheses of C02_request_spec as boolean functions of the REAL file bytes and the
+   table that was written (evaluated per case by the harness).  Where they hold, the property holds of the model
+   on that very file, and a model that agrees with the implementation forces the checker to accept: of the two
+   verdict bits, "checker rejects" can only occur together with "model <> implementation". *)
+Theorem C02_scope_bin_sound : forall f t tail, wf_bin_b f t tail = true -> wf_bin f t tail /\ t <> [].
+Proof. exact wf_bin_b_sound. Qed.
+
+Theorem C02_scope_text_sound : forall F P d names tb data,
+  wf_text_b F P d names tb data = true -> wf_text F P (text_file d names tb data) tb.
+Proof. exact wf_text_b_sound. Qed.
+
+Theorem C02_scope_bin_agree_implies_ok : forall P f t q out,
+  wf_bin_b f t [] = true -> nodup_b (rf_names f) = true ->
+  result_eqb value_eqb (run_request P f q) out = true ->
+  check (rf_nrows f) (rf_names f) t q out = true.
+Proof. exact scope_bin_agree_implies_ok. Qed.
+
+Theorem C02_scope_text_agree_implies_ok : forall F P d names tb data q out,
+  wf_text_b F P d names tb data = true -> nodup_b names = true ->
+  result_eqb value_eqb (run_request P (text_file d names tb data) q) out = true ->
+  check (Z.of_nat (length (TextModel.trows tb))) names (full_text F P tb) q out = true.
+Proof. exact scope_text_agree_implies_ok. Qed.
+
+Example ex_scope_bin : wf_bin_b ex_file ex_table [] = true /\ nodup_b (rf_names ex_file) = true.
+Proof. split; reflexivity. Qed.
+
+(* ------------------------------------------------------------------ every row argument, exactly (beyond the quantifier)
+   rows_outcome spells out what _get_rows2read does with ANY argument: a scalar or one-element list x is row x mod n
+   when -n <= x < n and ValueError otherwise; the empty list is the empty selection; a longer list must lie in [0, n)
+   (a negative entry is a ValueError although [x] alone is accepted); a slice object as rows= is a TypeError. *)
+Theorem C02_rows2read_exact : forall n r, 0 <= n -> rows2read_of n r = rows_outcome n r.
+Proof. exact rows2read_exact. Qed.
+
+Theorem C02_rows2read_error_classes : forall n r e, 0 <= n -> rows2read_of n r = Err e ->
+  (e = EType /\ exists a b c, r = RSlice a b c) \/
+  (e = EValue /\ match r with RScalar _ | RList _ => True | _ => False end).
+Proof. exact rows2read_error_classes. Qed.
+
+Example rows_negative_single : rows2read_of 5 (RList [-2]) = Ok (Some [3]).
+Proof. reflexivity. Qed.
+Example rows_negative_in_longer_list : rows2read_of 5 (RList [-2; 1]) = Err EValue.
+Proof. reflexivity. Qed.
+Example rows_scalar_out_of_range : rows2read_of 5 (RScalar 5) = Err EValue /\ rows2read_of 5 (RScalar (-6)) = Err EValue.
+Proof. split; reflexivity. Qed.
+
+(* an unknown column name is a ValueError; repeated names are covered by C02_columns_file_order (cs may repeat) *)
+Theorem C02_unknown_column_rejected : forall names cs,
+  (exists c, In c cs /\ ~ In c names) -> get_colnums names cs = Err EValue.
+Proof. exact unknown_column_rejected. Qed.
+
+Example columns_repeated : get_colnums [13; 11; 16] [16; 13; 16] = Ok [0; 2].
+Proof. reflexivity. Qed.
+Example columns_unknown : get_colnums [13; 11; 16] [16; 99] = Err EValue.
+Proof. reflexivity. Qed.
+
+(* Recfile.read for EVERY row argument and known columns, on a binary or writer-produced text file: the row
+   argument's outcome decides; accepted arguments never fail later; the result is the full read indexed by them *)
+Theorem C02_recfile_read_exact : forall P f t,
+  file_ok P f t -> NoDup (rf_names f) -> forall r fields columns split cols scalar,
+  spec_cols (rf_names f) (match fields with CNone => columns | _ => fields end) = CXCols cols scalar ->
+  recfile_read P f r fields columns split =
+  match rows_outcome (rf_nrows f) r with
+  | Err e => Err e
+  | Ok rows2 => Ok (shape_rf t (rows_of (length t) rows2) cols scalar split)
+  end.
+Proof. exact recfile_read_exact. Qed.
+
+Theorem C02_recfile_read_error_class : forall P f t,
+  file_ok P f t -> NoDup (rf_names f) -> forall r fields columns split cols scalar e,
+  spec_cols (rf_names f) (match fields with CNone => columns | _ => fields end) = CXCols cols scalar ->
+  recfile_read P f r fields columns split = Err e ->
+  rows_outcome (rf_nrows f) r = Err e /\ (e = EValue \/ e = EType).
+Proof. exact recfile_read_error_class. Qed.
+
+Example ex_read_negative_single :
+  recfile_read (fun _ x => x) ex_file (RList [-1]) CNone (CName 11) false = Ok (VPlain 1 [[x0c]]).
+Proof. reflexivity. Qed.
+
+(* ------------------------------------------------------------------ slices with a step <= 0 (outside the quantifier) *)
+Theorem C02_step_zero_binary : forall P f a b, rf_ascii f = false ->
+  recfile_getitem_rows P f (RSlice a b (Some 0)) = Err EOther.
+Proof. exact step_zero_binary. Qed.
+Theorem C02_step_zero_text : forall P f a b, rf_ascii f = true ->
+  recfile_getitem_rows P f (RSlice a b (Some 0)) = Err EOther.
+Proof. exact step_zero_text. Qed.
+Theorem C02_step_zero_unpacked : forall P f cols a b, colsubset_getitem P f cols (RSlice a b (Some 0)) = Err EOther.
+Proof. exact step_zero_unpacked. Qed.
+(* a negative step selects nothing on the unpacked path (text files, column subsets) ... *)
+Theorem C02_negative_step_unpacked : forall P f cols a b s, s < 0 ->
+  colsubset_getitem P f cols (RSlice a b (Some s)) = recfile_read P f (RList []) CNone cols false.
+Proof. exact negative_step_unpacked. Qed.
+(* ... and raises on the binary slice reader: ValueError (negative array size) or RuntimeError (C++ step check) *)
+Theorem C02_negative_step_binary : forall P f a b s, rf_ascii f = false -> s < 0 ->
+  recfile_getitem_rows P f (RSlice a b (Some s)) = Err EValue \/ recfile_getitem_rows P f (RSlice a b (Some s)) = Err ERuntime.
+Proof. exact negative_step_binary. Qed.
+
+Example ex_negative_step : recfile_getitem_rows (fun _ x => x) ex_file (RSlice None None (Some (-1))) = Err EValue
+                           /\ recfile_getitem_rows (fun _ x => x) ex_file (RSlice (Some 1) (Some 1) (Some (-1))) = Err ERuntime
+                           /\ colsubset_getitem (fun _ x => x) ex_file (CName 11) (RSlice None None (Some (-1))) = Ok (VPlain 1 []).
+Proof. repeat split; reflexivity. Qed.
+
+(* ------------------------------------------------------------------ history *)
+(* the model is a function of the call's own arguments: in any sequence of calls each answer is the answer to
+   that call made alone (what the `history` entry compares the implementation with) *)
+Theorem C02_model_history_free : forall P pre c post,
+  run_history P (pre ++ c :: post) = run_history P pre ++ run_request P (fst c) (snd c) :: run_history P post.
+Proof. exact model_history_free. Qed.
+
+(* the or-ed verdict of a sequence is below 2 exactly when no call of the sequence is a failing input *)
+Theorem C02_v_seq_clean : forall l, Forall is_verdict l -> (Exec.v_seq l < 2 <-> Forall (fun v => v < 2) l).
+Proof. exact v_seq_clean. Qed.
